@@ -107,9 +107,9 @@ def rule_find_region(ctx, prog, eff):
         return 'other:' + tstr(r[2])[:40] + ' ' + r[1] + ' ' + tstr(r[3])[:40]
 
     outs = outcomes.outcomes(prog, eff, b)
-    for pos, d in outs:
-        d = deep_strip(d)
-        facts = b.facts_at(pos)
+    for o in outs:
+        pos, d = o[0], deep_strip(o[1])
+        facts = outcomes.facts_of(b, o)
         if d[0] == 'agg' and d[2] == 'None':
             arms["none"] += 1
             continue
